@@ -69,7 +69,8 @@ def WireOK : Frame.Frame → Prop
   | _ => True
 
 /-- **the guarantees of the connection layer** at each call it makes on `streams`; `False` = the connection
-    layer (ConnProto.lean) never makes this call -/
+    layer (ConnProto.lean) never makes this call.  `handle_error` is never given a reset of the peer (the connection
+    passes GOAWAYs — library, remote, user — and I/O errors only). -/
 def ConnP (s : Streams) : Op → Prop
   | .recvHeaders _ => s.recv.refused = none
   | .recvPushPromise _ _ => s.recv.refused = none
@@ -78,7 +79,7 @@ def ConnP (s : Streams) : Op → Prop
   | .recvWindowUpdate _ inc => inc ≤ 2147483647
   | .recvEof b => b = false
   | .recvReset _ _ => True
-  | .handleError _ => True
+  | .handleError e => ∀ id r, e ≠ .reset id r .remote
   | .recvGoAwayFrame _ _ _ => True
   | .innerSendReset _ _ => True
   | .setTargetConnectionWindow _ => True
